@@ -1,3 +1,6 @@
+(* STATUS NOTE (third session): remarks of the form "NOT PROVED" in the comments below were written when the first theorems of this
+   file were stated; theorems added further down in this file supersede them.  The current status of the property is the row of
+   DESIGN.md section 14.4; the premises that remain are listed in DESIGN.md section 14.9. *)
 (* C16 — Node shapes are canonical modulo renaming; derived Language impls are coherent.
    Model: Lang/Sig.v, generic over signatures (every language `define_language!` can produce,
    with payload kinds u32/bool/Symbol).
